@@ -1,0 +1,54 @@
+//go:build verif
+
+package crypki
+
+// Contracts for the verification framework in /verif (comment-only file,
+// compiled only with -tags verif; see /verif/DESIGN.md).
+
+//@ import key "github.com/theparanoids/ysshra/sshutils/key"
+
+//@ # the endpoint list and dial options of a Signer are fixed by NewSigner
+//@ immutable Signer.endpoints, Signer.dialOptions
+
+//@ # ---------------------------------------------------------------- C17: ordered fail-over
+//@ func EstablishClientConn(endpoint, opts)
+//@   let n0 = old(calls(grpc.NewClient))
+//@   ensures calls(grpc.NewClient) == n0 + 1 && arg(grpc.NewClient, n0, 0) == endpoint && arg(grpc.NewClient, n0, 1) == opts
+//@   ensures err == nil ==> conn != nil && conn == ret(grpc.NewClient, n0, 0) && ret(grpc.NewClient, n0, 1) == nil
+//@   ensures err != nil ==> conn == nil && ret(grpc.NewClient, n0, 1) != nil
+
+//@ func (*Signer).postUserSSHCertificate(s, ctx, csr, endpoint)
+//@   flag logged
+//@   requires s != nil
+//@   let d0 = old(calls(grpc.NewClient))
+//@   let r0 = old(calls(SigningClient.PostUserSSHCertificate))
+//@   ensures [dials-the-endpoint-with-the-signer-options] calls(grpc.NewClient) == d0 + 1 && arg(grpc.NewClient, d0, 0) == endpoint &&
+//@     arg(grpc.NewClient, d0, 1) == s.dialOptions
+//@   ensures [request-passed-unmodified] calls(SigningClient.PostUserSSHCertificate) <= r0 + 1 &&
+//@     (calls(SigningClient.PostUserSSHCertificate) == r0 + 1 ==> (arg(SigningClient.PostUserSSHCertificate, r0, 2) == csr && arg(SigningClient.PostUserSSHCertificate, r0, 1) == ctx))
+//@   ensures [success-needs-a-signed-reply] err == nil ==> (calls(SigningClient.PostUserSSHCertificate) == r0 + 1 &&
+//@     ret(SigningClient.PostUserSSHCertificate, r0, 1) == nil && len(certs) >= 1 && len(certs) == len(comments))
+//@   ensures [connection-closed] ret(grpc.NewClient, d0, 1) == nil ==> calls(ClientConn.Close) == old(calls(ClientConn.Close)) + 1
+
+//@ func (*Signer).Sign(s, ctx, request)
+//@   requires s != nil
+//@   let n0 = old(calls(postUserSSHCertificate))
+//@   ensures [strict-order-same-request] calls(postUserSSHCertificate) - n0 <= len(s.endpoints) &&
+//@     forall(j, 0 <= j && j < calls(postUserSSHCertificate) - n0,
+//@       arg(postUserSSHCertificate, n0 + j, 0) == s && arg(postUserSSHCertificate, n0 + j, 1) == ctx &&
+//@       arg(postUserSSHCertificate, n0 + j, 2) == request && arg(postUserSSHCertificate, n0 + j, 3) == s.endpoints[j])
+//@   ensures [first-success-wins] err == nil ==> (calls(postUserSSHCertificate) - n0 >= 1 &&
+//@     ret(postUserSSHCertificate, calls(postUserSSHCertificate) - 1, 2) == nil &&
+//@     certs == ret(postUserSSHCertificate, calls(postUserSSHCertificate) - 1, 0) &&
+//@     comments == ret(postUserSSHCertificate, calls(postUserSSHCertificate) - 1, 1) &&
+//@     forall(j, n0 <= j && j < calls(postUserSSHCertificate) - 1, ret(postUserSSHCertificate, j, 2) != nil))
+//@   ensures [exhaustion-is-an-error] (forall(j, n0 <= j && j < calls(postUserSSHCertificate), ret(postUserSSHCertificate, j, 2) != nil)) ==> err != nil
+//@   ensures [all-tried-before-giving-up] err != nil ==> calls(postUserSSHCertificate) - n0 == len(s.endpoints)
+//@   loop 1:
+//@     invariant calls(postUserSSHCertificate) == n0 + rangeindex + 1
+//@     invariant forall(j, 0 <= j && j <= rangeindex,
+//@       arg(postUserSSHCertificate, n0 + j, 0) == s && arg(postUserSSHCertificate, n0 + j, 1) == ctx &&
+//@       arg(postUserSSHCertificate, n0 + j, 2) == request && arg(postUserSSHCertificate, n0 + j, 3) == s.endpoints[j] &&
+//@       ret(postUserSSHCertificate, n0 + j, 2) != nil)
+//@     invariant rangeindex >= 0 ==> err == ret(postUserSSHCertificate, n0 + rangeindex, 2)
+//@     invariant len(s.endpoints) >= 1
